@@ -102,7 +102,9 @@ def run_case(case, acc, order):
                         if sel.any():
                             exp_mean[k] = exp_spike[sel].mean()
                     try:
-                        got = m.get_amplitudes_true(f, use=use)
+                        # arguments left to their defaults where the default is the value wanted
+                        akw = {} if use == 'templates' else {'use': use}
+                        got = m.get_amplitudes_true(**akw) if f == 1 else m.get_amplitudes_true(f, **akw)
                     except Exception as e:
                         got = e
                     empties = bool(np.isnan(exp_mean).any())
